@@ -63,8 +63,28 @@ def gen_hist(rng, mode):
     return {'mode': 'hist', 'docs': docs, 'ops': ops}
 
 
+# twelve different media types a sub-document folder can be declared with (the parts inside are text or spreadsheet parts)
+MANY_MTS = [u'application/vnd.oasis.opendocument.' + x for x in (
+    'text', 'spreadsheet', 'graphics', 'chart', 'presentation', 'formula', 'image', 'text-template', 'spreadsheet-template',
+    'graphics-template', 'presentation-template', 'text-master')]
+
+
+def many_objects(nums, rng=None):
+    """objects with pairwise distinct content (marker 1000+N) and pairwise distinct media types, so that any permutation of the
+    sub-documents by load()/save() is observable"""
+    return [{'num': n, 'kind': 'text' if i % 2 == 0 else 'spreadsheet', 'mt': MANY_MTS[i % 12], 'settings': False,
+             'pic': bool(rng and rng.random() < 0.3), 'file': False, 'nested': False} for i, n in enumerate(nums)]
+
+
 def gen_pkg(rng):
-    nums = rng.choice([[7], [2, 5], [1, 3], [2, 1], [1, 2], [1, 2, 3], [3, 1, 2], [10, 1], [100], [1, 100], [12, 99]])
+    x = rng.random()
+    if x < 0.3:
+        # 10-12 top-level objects ("Object 10/" sorts before "Object 2/"), listed in order or in permuted manifest order
+        nums = list(range(1, rng.choice([10, 11, 12]) + 1))
+        if rng.random() < 0.5:
+            rng.shuffle(nums)
+        return {'mode': 'pkg', 'nums': nums, 'objects': many_objects(nums, rng), 'root_first': rng.random() < 0.7, 'extras': rng.random() < 0.3}
+    nums = rng.choice([[7], [2, 5], [1, 3], [2, 1], [1, 2], [1, 2, 3], [3, 1, 2], [1, 3, 2], [10, 1], [100], [1, 100], [12, 99]])
     return {'mode': 'pkg', 'nums': nums,
             'objects': [{'num': n, 'kind': rng.choice(['text', 'spreadsheet']), 'settings': rng.random() < 0.3,
                          'pic': rng.random() < 0.5, 'file': rng.random() < 0.3, 'nested': rng.random() < 0.25} for n in nums],
@@ -220,7 +240,7 @@ def travel_checks(arch1, arch2):
     return out
 
 
-def ref_checks(arch1, arch2, mimetypes, contiguous=True):
+def ref_checks(arch1, arch2, mimetypes, contiguous=True, permuted=False):
     """every draw:object href that resolved in arch1 must, as found in arch2's content, resolve in arch2"""
     out = []
     def refs_of(arch):
@@ -240,6 +260,8 @@ def ref_checks(arch1, arch2, mimetypes, contiguous=True):
             sig = 'nested-object-not-loaded'
         elif len(G1) >= 11:
             sig = 'long-object-name-not-loaded'
+        elif permuted:
+            sig = 'permuted-manifest-order'
         elif not contiguous:
             sig = 'noncontiguous-object-numbering'
         else:
@@ -253,14 +275,14 @@ def ref_checks(arch1, arch2, mimetypes, contiguous=True):
     return out, len(r1)
 
 
-def reload_checks(chk, drv, case, raw, arch, mimetypes, oracle_only, contiguous=True, pspec=None, nonempty=None):
+def reload_checks(chk, drv, case, raw, arch, mimetypes, oracle_only, contiguous=True, pspec=None, nonempty=None, permuted=False):
     from odf.opendocument import load
     fails = []
     d2 = load(io.BytesIO(raw))
     m2 = c03.mirror_of_loaded(d2)
     raw2, _ = pk.save_real(d2)
     arch2 = pk.read_archive(raw2)
-    r, n = ref_checks(arch, arch2, mimetypes, contiguous)
+    r, n = ref_checks(arch, arch2, mimetypes, contiguous, permuted)
     chk.count('reload_refs_checked', n)
     fails += r
     fails += travel_checks(arch, arch2)
@@ -306,8 +328,8 @@ def build_pkg(ps):
     for o in ps['objects']:
         F = u'Object %d/' % o['num']
         mk = 1000 + o['num']
-        mimetypes[mk] = pk.KINDS[o['kind']]
-        man.append((F, pk.KINDS[o['kind']]))
+        mimetypes[mk] = o.get('mt') or pk.KINDS[o['kind']]
+        man.append((F, mimetypes[mk]))
         parts = pk.parts_of(o['kind'], mk, o['settings'])
         for n in ('content.xml', 'styles.xml', 'settings.xml'):
             if n in parts:
@@ -340,9 +362,13 @@ def run_pkg(chk, drv, ps, oracle_only=False):
     raw = pk.make_package(pspec)
     arch = pk.read_archive(raw)
     names = [p for p, _ in pspec['manifest'] if p.startswith('Object ') and p.endswith('/') and p.count('/') == 1]
-    contiguous = names == [u'Object %d/' % (i + 1) for i in range(len(names))]
-    chk.count('pkg_contiguous' if contiguous else 'pkg_noncontiguous')
-    return reload_checks(chk, drv, ps, raw, arch, mimetypes, oracle_only, contiguous, pspec, nonempty), None, arch
+    inorder = [u'Object %d/' % (i + 1) for i in range(len(names))]
+    contiguous = names == inorder
+    # the folders ARE numbered 1..n (all short names) and only their order in the manifest differs
+    permuted = (not contiguous) and sorted(names) == sorted(inorder)
+    chk.count('pkg_contiguous' if contiguous else 'pkg_permuted_manifest_order' if permuted else 'pkg_noncontiguous')
+    chk.count('pkg_objects_%s' % ('10plus' if len(names) >= 10 else 'lt10'))
+    return reload_checks(chk, drv, ps, raw, arch, mimetypes, oracle_only, contiguous, pspec, nonempty, permuted), None, arch
 
 
 # ------------------------------------------------------------------------------------------------ cases
@@ -358,6 +384,11 @@ FIXED = [
     {'mode': 'hist', 'docs': [{'kind': 'text', 'settings': False, 'pics': []},
                               {'kind': 'text', 'settings': False, 'pics': [{'how': 'file', 'data': '616263', 'mt': None, 'ext': '', 'relpath': u'd.//a'}]}],
      'ops': [[0, 1, None]]},
+    # twelve top-level objects with distinct content and distinct media types: in order, in permuted manifest order; two swapped
+    {'mode': 'pkg', 'nums': list(range(1, 13)), 'objects': many_objects(list(range(1, 13))), 'root_first': True, 'extras': False},
+    {'mode': 'pkg', 'nums': [10, 2, 11, 1, 12, 3, 9, 4, 8, 5, 7, 6], 'objects': many_objects([10, 2, 11, 1, 12, 3, 9, 4, 8, 5, 7, 6]),
+     'root_first': False, 'extras': False},
+    {'mode': 'pkg', 'nums': [2, 1], 'objects': many_objects([2, 1]), 'root_first': True, 'extras': False},
     # ordered, three levels, pictures in the objects
     {'mode': 'hist', 'docs': [{'kind': 'text', 'settings': True, 'pics': []},
                               {'kind': 'text', 'settings': False, 'pics': [{'how': 'string', 'data': '0102', 'mt': u'image/png'}]},
@@ -423,7 +454,7 @@ def run(chk, replay=None):
     chk.rule = ('attachment histories over 2-7 documents: 45% well ordered with default names (the hypothesis of the theorem), '
                 '35% any order with 25% explicit names, each document with 0-2 pictures, references written into the parent '
                 'as draw:object; every saved package is loaded and saved again; 20% hand-made packages with object folders '
-                'numbered 7 / 2,5 / 2,1 / 100 ... with pictures, other files and nested objects; plus ALL histories that attach 1..3 (thorough: 4) '
+                'numbered 7 / 2,5 / 2,1 / 100 ... with pictures, other files and nested objects, 30% of them with 10-12 objects of distinct content and media type, half of those in permuted manifest order; plus ALL histories that attach 1..3 (thorough: 4) '
                 'objects in every order under every admissible parent, nesting <= 3; non-trivial = at least one reference')
     if replay is not None:
         fails, refs, arch = run_case(chk, None, replay['input'], oracle_only=True)
